@@ -1003,7 +1003,7 @@ PROP = Property(
     id="C03",
     title="Linked attributes are reachable exactly through links and carry composed values",
     theorems=["C03.discover_terminates", "C03.discover_reachable", "C03.discover_depth_min", "C03.discover_value",
-              "C03.spec_local_implies_composed", "C03.specDepth_reachable", "C03.manager_inv", "C03.manager_reads",
+              "C03.spec_local_implies_composed", "C03.specDepth_reachable", "C03.manager_inv", "C03.manager_reads", "C03.derived_reads_internal",
               "C03.selection_via_links", "C03.manager_no_dangling", "C03.removal_forgets",
               "C03.list_op_raising_midway_synced"],
     families=[Structured(), Shapes(), Derived(), Histories()],
